@@ -97,3 +97,90 @@ func specWFQWeight(q *weightedFairQueueingPendingQueuePolicy, sid uint16) float6
 //@   ensures#failed-pop-keeps-the-clock{C17} result != nil ==> feq(q.virtualTime, old(q.virtualTime))
 //@   ensures#needs-a-selection{C17} !old(q.streamSelected) ==> result != nil
 //@   tags C17
+
+// ---- round robin: backlogged streams wait in one round, the served stream goes to the back ----
+
+//@ pred rrInv(q)
+//@   clause#map q.streamQueues != nil
+//@   clause#listed-streams-are-backlogged forall i int :: 0 <= i && i < len(q.streamOrder) ==>
+//@      q.streamQueues[q.streamOrder[i]] != nil && len(q.streamQueues[q.streamOrder[i]].queue) > 0
+//@   clause#selection-is-the-head-of-the-round q.streamSelected ==> len(q.streamOrder) > 0 && q.streamOrder[0] == q.selectedStream
+//@   clause#no-stream-twice-in-a-round forall i int, j int :: 0 <= i && i < j && j < len(q.streamOrder) ==> q.streamOrder[i] != q.streamOrder[j]
+//@   clause#one-queue-per-stream forall s uint16, t uint16 :: s != t && q.streamQueues[s] != nil ==> q.streamQueues[s] != q.streamQueues[t]
+
+//@ func roundRobinPendingQueuePolicy.Reset
+//@   ensures{C17} rrInv(q)
+//@   ensures#empty-round{C17} len(q.streamOrder) == 0 && !q.streamSelected
+//@   tags C17
+
+//@ func roundRobinPendingQueuePolicy.Push
+//@   requires rrInv(q)
+//@   requires#real-chunk typeIs(chunk, (*chunkPayloadData)(nil)) && chunk.chunkPayloadData() != nil
+//@   ensures{C17} rrInv(q)
+//@   ensures#idle-stream-joins-the-back-of-the-round{C17} old(q.streamQueues[chunk.StreamIdentifier()] == nil || len(q.streamQueues[chunk.StreamIdentifier()].queue) == 0) ==>
+//@      len(q.streamOrder) == old(len(q.streamOrder))+1 && q.streamOrder[old(len(q.streamOrder))] == chunk.StreamIdentifier()
+//@   ensures#backlogged-stream-keeps-its-place{C17} !old(q.streamQueues[chunk.StreamIdentifier()] == nil || len(q.streamQueues[chunk.StreamIdentifier()].queue) == 0) ==>
+//@      len(q.streamOrder) == old(len(q.streamOrder))
+//@   ensures#round-order-kept{C17} forall i int :: 0 <= i && i < old(len(q.streamOrder)) ==> q.streamOrder[i] == old(q.streamOrder[i])
+//@   ensures#queued-behind-its-stream{C17} q.streamQueues[chunk.StreamIdentifier()] != nil &&
+//@      q.streamQueues[chunk.StreamIdentifier()].queue[len(q.streamQueues[chunk.StreamIdentifier()].queue)-1] == chunk.chunkPayloadData()
+//@   ensures#selection-untouched{C17} q.streamSelected == old(q.streamSelected) && q.selectedStream == old(q.selectedStream)
+//@   tags C17
+
+//@ func roundRobinPendingQueuePolicy.Peek
+//@   requires rrInv(q)
+//@   ensures{C17} rrInv(q)
+//@   ensures#serves-the-head-of-the-round{C17} old(len(q.streamOrder)) > 0 ==> q.streamSelected && q.selectedStream == old(q.streamOrder[0]) &&
+//@      ifaceIs(result, specQHead(q.streamQueues[q.selectedStream]))
+//@   ensures#nothing-queued-nothing-served{C17} old(len(q.streamOrder)) == 0 ==> !q.streamSelected
+//@   modifies q.streamSelected, q.selectedStream
+//@   tags C17
+
+//@ func roundRobinPendingQueuePolicy.Pop
+//@   requires rrInv(q)
+//@   requires#real-chunk typeIs(chunkPayload, (*chunkPayloadData)(nil)) && chunkPayload.chunkPayloadData() != nil
+//@   ensures#needs-a-selection{C17} !old(q.streamSelected) ==> result != nil
+//@   ensures#pops-the-head-of-the-selected-stream{C17,LEMMA} result == nil ==> chunkPayload.chunkPayloadData() == old(specQHead(q.streamQueues[q.selectedStream])) && !q.streamSelected
+//@   ensures#served-stream-goes-to-the-back-of-the-round{C17,LEMMA} result == nil && old(len(q.streamQueues[q.selectedStream].queue)) > 1 ==>
+//@      len(q.streamOrder) == old(len(q.streamOrder)) && q.streamOrder[len(q.streamOrder)-1] == old(q.selectedStream)
+//@   ensures#drained-stream-leaves-the-round{C17,LEMMA} result == nil && old(len(q.streamQueues[q.selectedStream].queue)) <= 1 ==>
+//@      len(q.streamOrder) == old(len(q.streamOrder))-1
+//@   ensures#the-others-move-up-one-place{C17,LEMMA} result == nil ==> forall i int :: 0 <= i && i < old(len(q.streamOrder))-1 ==> q.streamOrder[i] == old(q.streamOrder[i+1])
+//@   ensures#other-streams-keep-their-queues{C17,LEMMA} result == nil ==> forall s uint16 :: s != old(q.selectedStream) ==>
+//@      q.streamQueues[s] == old(q.streamQueues[s]) && (q.streamQueues[s] != nil ==> len(q.streamQueues[s].queue) == old(len(q.streamQueues[s].queue)))
+//@   ensures#served-stream-keeps-the-rest-of-its-queue{C17,LEMMA} result == nil && old(len(q.streamQueues[q.selectedStream].queue)) > 1 ==>
+//@      q.streamQueues[old(q.selectedStream)] == old(q.streamQueues[q.selectedStream]) && len(q.streamQueues[old(q.selectedStream)].queue) == old(len(q.streamQueues[q.selectedStream].queue))-1
+//@   ensures#waiting-streams-were-distinct{LEMMA} result == nil ==> forall i int, j int :: 0 <= i && i < j && j < old(len(q.streamOrder))-1 ==> old(q.streamOrder[i+1]) != old(q.streamOrder[j+1])
+//@   ensures#waiting-streams-differ-from-the-served-one{LEMMA} result == nil ==> forall i int :: 0 <= i && i < old(len(q.streamOrder))-1 ==> old(q.streamOrder[i+1]) != old(q.streamOrder[0])
+//@   ensures#waiting-streams-were-backlogged{LEMMA} result == nil ==> forall i int :: 0 <= i && i < old(len(q.streamOrder))-1 ==>
+//@      old(q.streamQueues[q.streamOrder[i+1]] != nil && len(q.streamQueues[q.streamOrder[i+1]].queue) > 0)
+//@   ensures#moved-up-streams-stay-distinct{LEMMA} result == nil ==> forall i int, j int :: 0 <= i && i < j && j < old(len(q.streamOrder))-1 ==> q.streamOrder[i] != q.streamOrder[j]
+//@   ensures#served-stream-is-listed-once{LEMMA} result == nil && old(len(q.streamQueues[q.selectedStream].queue)) > 1 ==> forall i int :: 0 <= i && i < len(q.streamOrder)-1 ==> q.streamOrder[i] != q.streamOrder[len(q.streamOrder)-1]
+//@   ensures#round-stays-well-formed{C17} result == nil ==> rrInv(q)
+//@   tags C17
+
+// specWFQTag(q, s): finish tag of the chunk at the head of stream s.
+func specWFQTag(q *weightedFairQueueingPendingQueuePolicy, s uint16) float64 {
+	return q.chunkFinish[specQHead(q.streamQueues[s])]
+}
+
+// specWFQBacklogged(q, s): stream s has a chunk waiting.
+func specWFQBacklogged(q *weightedFairQueueingPendingQueuePolicy, s uint16) bool {
+	return q.streamQueues[s] != nil && specQHead(q.streamQueues[s]) != nil
+}
+
+//@ func weightedFairQueueingPendingQueuePolicy.Peek
+//@   requires#finite-tags forall c *chunkPayloadData :: !isNaN(q.chunkFinish[c]) && !isInf(q.chunkFinish[c])
+//@   requires#queues-are-real forall s uint16 :: has(q.streamQueues, s) ==> q.streamQueues[s] != nil
+//@   loop 1 invariant#candidate-is-a-stream-head selectedChunk != nil ==> specWFQBacklogged(q, selectedStream) &&
+//@      selectedChunk == specQHead(q.streamQueues[selectedStream]) && feq(selectedFinish, q.chunkFinish[selectedChunk])
+//@   loop 1 invariant#no-candidate-yet selectedChunk == nil ==> isInf(selectedFinish) && selectedFinish > 0
+//@   loop 1 invariant#smallest-tag-so-far forall s uint16 :: visited(q.streamQueues, s) && specWFQBacklogged(q, s) ==>
+//@      selectedChunk != nil && (selectedFinish < specWFQTag(q, s) || (selectedFinish == specWFQTag(q, s) && selectedStream <= s))
+//@   ensures#selection-kept-until-popped{C17} old(q.streamSelected) ==> q.streamSelected && q.selectedStream == old(q.selectedStream)
+//@   ensures#serves-the-smallest-finish-tag{C17} !old(q.streamSelected) ==> forall s uint16 :: specWFQBacklogged(q, s) ==>
+//@      q.streamSelected && ifaceIs(result, specQHead(q.streamQueues[q.selectedStream])) && specWFQBacklogged(q, q.selectedStream) &&
+//@      (specWFQTag(q, q.selectedStream) < specWFQTag(q, s) || (specWFQTag(q, q.selectedStream) == specWFQTag(q, s) && q.selectedStream <= s))
+//@   ensures#nothing-served-only-when-nothing-waits{C17} !q.streamSelected ==> forall s uint16 :: !specWFQBacklogged(q, s)
+//@   modifies q.streamSelected, q.selectedStream
+//@   tags C17
